@@ -1,5 +1,9 @@
 #include "chibicc.h"
 
+// True while a #if expression is being evaluated: there, every
+// operator yields intmax_t or uintmax_t (C11 6.10.1p4).
+bool in_pp_const_expr;
+
 Type *ty_void = &(Type){TY_VOID, 1, 1};
 Type *ty_bool = &(Type){TY_BOOL, 1, 1};
 
@@ -223,7 +227,7 @@ void add_type(Node *node) {
   case ND_LT:
   case ND_LE:
     usual_arith_conv(&node->lhs, &node->rhs);
-    node->ty = ty_int;
+    node->ty = in_pp_const_expr ? ty_long : ty_int;
     return;
   case ND_FUNCALL:
     node->ty = node->func_ty->return_ty;
@@ -231,7 +235,7 @@ void add_type(Node *node) {
   case ND_NOT:
   case ND_LOGOR:
   case ND_LOGAND:
-    node->ty = ty_int;
+    node->ty = in_pp_const_expr ? ty_long : ty_int;
     return;
   case ND_BITNOT:
   case ND_SHL:
